@@ -2,7 +2,7 @@
 import re
 
 from .. import ledger, paths
-from ..expr import ExprBuilder, show, walk, canon, is_const, root_of, to_poly, Poly
+from ..expr import alternatives, ExprBuilder, show, walk, canon, is_const, root_of, to_poly, Poly
 from ..taint import Taint
 from . import common as cm
 from .c18 import const_small
@@ -294,6 +294,44 @@ def run(ctx):
     ctx.assume("jlabel's `Label: FromStr` returns Err on malformed text and does not panic (model entry in the quick tier; its bodies are scanned by the E6 ledger in the thorough tier)")
     if ctx.tier == "thorough":
         deps_ledger(ctx)
+    # ---- R6: one time pair per label in every form
+    ctx.rule("C17-R6", "every Ok value of Labels::new has one time pair per label: with times given, only behind `labels.len() == times.len()`; without (already-parsed labels), times = vec![(unknown, unknown); labels.len()] with negative (= unknown) entries - so the alignment code sees the same shape whichever input form was used")
+    nb = cm.body_or_fail(ctx, p, "C17-R6", "label::Labels::new")
+    if nb is not None:
+        neb = ExprBuilder(nb)
+        oks = 0
+        for rbb, e, item in paths.return_exprs(nb, neb):
+            for v in alternatives(neb, e) if e[0] == "var" else [e]:
+                if not (v[0] == "agg" and v[1].endswith("Result::Ok")):
+                    continue
+                inner = v[2][0]
+                if not (inner[0] == "agg" and inner[3] and "times" in inner[3] and "labels" in inner[3]):
+                    ctx.fail("C17-R6", nb.path, "value", "Labels::new returns Ok(%s)" % show(inner)[:80], nb.loc())
+                    continue
+                oks += 1
+                tv = inner[2][inner[3].index("times")]
+                lv = inner[2][inner[3].index("labels")]
+                gs = paths.guards(nb, rbb, neb)
+                if tv[0] == "call" and tv[1].endswith("from_elem") and len(tv[2]) == 2:
+                    el, n = tv[2]
+                    neg = el[0] == "agg" and len(el[2]) == 2 and all(x[0] == "c" and float(x[1]) < 0 for x in el[2])
+                    if neg and n == ("len", lv):
+                        ctx.ok("C17-R6", "without times: times = vec![(-1, -1); labels.len()]", nb.loc())
+                    else:
+                        ctx.fail("C17-R6", nb.path, "untimed labels", "without times the labels get `%s` as their time pairs, expected one negative (unknown) pair per label" % show(tv)[:100], nb.loc())
+                else:
+                    # the given vector (possibly normalised in place): behind the length comparison
+                    lens = False
+                    for g in gs:
+                        if g[0] in ("true", "false"):
+                            pos, c = paths.bool_atoms(g)
+                            if c[0] == "bin" and c[1] in ("Ne", "Eq") and (c[1] == "Eq") == pos and {show(c[2]), show(c[3])} == {"len(%s)" % show(lv), "len(%s)" % show(tv)}:
+                                lens = True
+                    if lens:
+                        ctx.ok("C17-R6", "with times: returned only behind labels.len() == times.len()", nb.loc())
+                    else:
+                        ctx.fail("C17-R6", nb.path, "time pairs", "Labels::new can return times = `%s` without one pair per label (no dominating length comparison with the labels)" % show(tv)[:80], nb.loc())
+        ctx.anchor("C17-R6", "Ok values of Labels::new", oks, 2, nb.loc())
     expl = ("Resolved delegation chain of the four ToLabels impls, read-set of the times field and control dependence of its only use, "
             "taint from (sampling_rate, fperiod) not reaching the parsed labels, dominance/post-dominance pairing of the two pushes in the "
             "line loop, panic ledger of the reader with mechanical guards, and `?`-propagation of every fallible parse.")
